@@ -321,7 +321,13 @@ func c01AllMatchesReplaced(r *an.Run) {
 		return
 	}
 	msg := il.CoversAll(calls[0], an.FailureExit)
-	r.Check(msg == "" && il.Start == 0 && il.Step == 1, short(f)+"|covers-all", calls[0].Pos(), "every recorded match is handed to the node replacer (start %d, step %d) %s", il.Start, il.Step, msg)
+	r.Check(msg == "" && il.Full(), short(f)+"|covers-all", calls[0].Pos(), "every recorded match is handed to the node replacer (start %d, step %d) %s", il.Start, il.Step, msg)
+	// the traversal records a match before the matches nested in it (pre-order, R1). A match nested directly in
+	// the list of another match (a bare block that is a statement of a matched block) is recorded as a slot of
+	// the outer node as it was; the outer replacement is a new node that reproduces the elements of the old list
+	// by reading their slots. So the inner match must be written first: the loop runs from the last recorded
+	// match to the first (after F15)
+	r.Check(il.Descending, short(f)+"|innermost-first", il.If.Pos(), "the recorded matches are replaced last-recorded first: a match nested directly inside another match is rewritten before the outer one reproduces that part of the tree")
 	r.Count("match-loop", 1)
 }
 
